@@ -23,11 +23,12 @@ structure WF (L : Layout) : Prop where
   resp_crecv : sizeOf L .infoResp < L.clientRecvMax
   resp_recv : sizeOf L .infoResp < L.recvMax
   req_crecv : sizeOf L .infoReq < L.clientRecvMax
+  name_le : L.maxNameChars ≤ L.nameLen
 
 theorem wf_of_wellFormed {L : Layout} (h : WellFormed L = true) : WF L := by
   simp only [WellFormed, Bool.and_eq_true, decide_eq_true_eq, beq_iff_eq, List.contains_iff_mem] at h
-  obtain ⟨⟨⟨⟨⟨⟨⟨⟨⟨⟨⟨⟨⟨⟨⟨⟨⟨h1, h2⟩, h3⟩, h4⟩, h5⟩, h6⟩, h7⟩, h8⟩, h9⟩, h10⟩, h11⟩, h12⟩, h13⟩, h14⟩, h15⟩, h16⟩, h17⟩, h18⟩ := h
-  exact ⟨h1, h2, h3, h4, h5, h6, h7, h8, h9, h10, h11, h12, h13, h14, h15, h16, h17, h18⟩
+  obtain ⟨⟨⟨⟨⟨⟨⟨⟨⟨⟨⟨⟨⟨⟨⟨⟨⟨⟨h1, h2⟩, h3⟩, h4⟩, h5⟩, h6⟩, h7⟩, h8⟩, h9⟩, h10⟩, h11⟩, h12⟩, h13⟩, h14⟩, h15⟩, h16⟩, h17⟩, h18⟩, h19⟩ := h
+  exact ⟨h1, h2, h3, h4, h5, h6, h7, h8, h9, h10, h11, h12, h13, h14, h15, h16, h17, h18, h19⟩
 
 theorem hdrSize_le (L : Layout) (k : Kind) : hdrSize L ≤ sizeOf L k := by
   cases k <;> simp [sizeOf, sizesOf, hdrSize, List.sum_append] <;> omega
